@@ -164,6 +164,9 @@ def render_moltype(sysd, mt):
 
 def render_top(sysd, include=None):
     lines = ["[ defaults ]", sysd["defaults"], "[ atomtypes ]"]
+    for t, m_, sg_ in sysd.get("atypes_defined_before", []):
+        # an earlier definition of the same type (a force-field file that the topology overrides): the last one counts
+        lines.append("%s %r 0.0 A %r %r" % (t, m_, sg_, sysd["atypes"][t]["eps"]))
     for t, d in sorted(sysd["atypes"].items()):
         lines.append("%s %r 0.0 A %r %r" % (t, d["mass"], d["sigma"], d["eps"]))
     for mt in sysd["moltypes"]:
